@@ -173,7 +173,7 @@ def handleC19 (j : Json) : Except String Json := do
           let r := interruptedR Generated.table s n
           pure (some r.1, Json.mkObj [("log", jsonOfLog r.2), ("tables", jsonOfData r.1.data),
             ("schema", jsonOfSchema (schemaOf r.1.data)), ("rev", jsonOfRev r.1.rev),
-            ("moved", movedJson (some s) r.2), ("wf", Json.bool (wfData r.1.data))])
+            ("moved", movedJson (some s) (interruptedDurableLog Generated.table s n)), ("wf", Json.bool (wfData r.1.data))])
         | none => throw "crash needs an existing file"
       | .error _ => pure (file, Json.null)
     let out := (allHistories depth).map fun h =>
@@ -189,7 +189,7 @@ def handleC19 (j : Json) : Except String Json := do
         Json.mkObj [("path", pathString h), ("log", jsonOfLog log), ("schema", jsonOfSchema (schemaOf st.data)),
                     ("rev", jsonOfRev st.rev), ("same", Json.bool same),
                     ("tables", if same then Json.null else jsonOfData st.data),
-                    ("moved", movedJson before log),
+                    ("moved", if cfg.migrateCommits then movedJson before log else Json.arr #[]),
                     ("wf", Json.bool (wfData st.data))]
       | none => Json.null
     pure (Json.mkObj [("nodes", Json.arr out.toArray), ("crash", crashJ),
